@@ -33,6 +33,8 @@ clause → theorem
 * wrong element type rejected .................... `wrong_type_rejected`, `wrong_form_rejected`
 * wrong body format rejected ..................... `wrong_format_rejected`
 * aligned request as a wire frame (with C01) ..... `aligned_frame_any_capacity`
+* the client entry points send that frame ........ `client_aligned_request_is_builder_frame`, `client_aligned_request_borrowable`, `client_bulk_request_is_regular`
+* the dependency's layout constants .............. `beve_layout_constants`
 * a whole call echoes the vector ................. `call_echo`
 -/
 namespace Repe.C08
@@ -475,6 +477,74 @@ theorem aligned_frame_any_capacity {t : ElemTy} {xs : List Bytes} (v : Vec t t.w
 /-- Non-vacuity: a 5-byte path, two f64, capacity smaller and larger than the frame. -/
 example : let m := alignedRequest 7 false 0 1 [0x2f, 1, 2, 3, 4] ⟨0, 3⟩ [[1, 2, 3, 4, 5, 6, 7, 8], [9, 9, 9, 9, 9, 9, 9, 9]]
     m.intoWireBytes 0 = m.toVec ∧ m.intoWireBytes 4096 = m.toVec ∧ m.toVec.length = 48 + 5 + 3 + 1 + 7 + 16 := by
+  decide
+
+/-! ### the client entry points -/
+
+/-- Every aligned entry point of both clients (`call_typed_slice_aligned`, `…_with_timeout`) puts on
+the wire exactly the frame the buffered builder makes with the query set first — read off the current
+source: the order of the builder steps in `call_with_body_and_timeout` and the builder method each
+entry point reaches. -/
+theorem client_aligned_request_is_builder_frame (timeout : Bool) (t : ElemTy) (id : Nat) (path : Bytes)
+    (xs : List Bytes) :
+    clientRequest F F.syncClient .aligned timeout t id path xs = alignedRequest id false 0 1 path t xs ∧
+    clientRequest F F.asyncClient .aligned timeout t id path xs = alignedRequest id false 0 1 path t xs := by
+  have h1 : F.syncClient.queryFirst = true ∧ F.syncClient.alignedPlain = .aligned ∧
+      F.syncClient.alignedTimeout = .aligned := by decide
+  have h2 : F.asyncClient.queryFirst = true ∧ F.asyncClient.alignedPlain = .aligned ∧
+      F.asyncClient.alignedTimeout = .aligned := by decide
+  cases timeout <;> simp [clientRequest, clientBody, alignedRequest, h1, h2]
+
+/-- … so, served by the borrowing route from a receive buffer at address `a`, the request of every
+aligned entry point is borrowed exactly when `a` is a multiple of the element alignment, for every
+path length — and its frame survives `into_wire_bytes` at any capacity. -/
+theorem client_aligned_request_borrowable {t : ElemTy} {xs : List Bytes} (v : Vec t t.width xs)
+    (timeout : Bool) (id : Nat) (path : Bytes) (a : Nat) (C : ClientFacts)
+    (hC : C = F.syncClient ∨ C = F.asyncClient) :
+    let m := clientRequest F C .aligned timeout t id path xs
+    sliceRefHandler F t m.header.bodyFormat (a + 48 + path.length) m.body =
+      .called (if a % t.align = 0 then .borrowed xs else .owned xs) := by
+  intro m
+  have hm : m = alignedRequest id false 0 1 path t xs := by
+    rcases hC with rfl | rfl
+    · exact (client_aligned_request_is_builder_frame timeout t id path xs).1
+    · exact (client_aligned_request_is_builder_frame timeout t id path xs).2
+  rw [hm]
+  exact aligned_route_any_address v path.length a
+
+/-- The bulk entry points send the regular form, the serde one the generic form; the response of both
+bulk routes is framed by `body_typed_slice`. -/
+theorem client_bulk_request_is_regular (timeout : Bool) (t : ElemTy) (qlen : Nat) (xs : List Bytes) :
+    clientBody F F.syncClient .bulk timeout t qlen xs = bodyTypedSlice t xs ∧
+    clientBody F F.asyncClient .bulk timeout t qlen xs = bodyTypedSlice t xs ∧
+    F.respBulk = true := by
+  have h1 : F.syncClient.bulkPlain = .regular ∧ F.syncClient.bulkTimeout = .regular := by decide
+  have h2 : F.asyncClient.bulkPlain = .regular ∧ F.asyncClient.bulkTimeout = .regular := by decide
+  refine ⟨?_, ?_, by decide⟩ <;> cases timeout <;> simp [clientBody, h1, h2]
+
+/-- What goes wrong otherwise (seeded C08-B): a client that applies the body closure before the query
+pads for offset 48; with a 3-byte path the f64 payload is then borrowed at base 5, not at base 0. -/
+example : let C : ClientFacts := { F.syncClient with queryFirst := false }
+    let m := clientRequest F C .aligned true ⟨0, 3⟩ 1 [0x2f, 0x61, 0x62] [[1, 2, 3, 4, 5, 6, 7, 8]]
+    sliceRefHandler F ⟨0, 3⟩ m.header.bodyFormat (0 + 48 + 3) m.body = .called (.owned [[1, 2, 3, 4, 5, 6, 7, 8]]) ∧
+    sliceRefHandler F ⟨0, 3⟩ m.header.bodyFormat (5 + 48 + 3) m.body = .called (.borrowed [[1, 2, 3, 4, 5, 6, 7, 8]]) := by
+  decide
+
+/-! ### the dependency's layout constants -/
+
+/-- The layout constants the model hard-codes are the ones in the beve crate source the lock file
+names (header type / class codes, aligned marker, complex extension byte, the empty generic array, the
+three SIZE threshold ladders, and the table of `BeveTypedSlice` implementors with their widths). -/
+theorem beve_layout_constants :
+    let B := Gen.beveFacts
+    UInt8.ofNat (B.alignedDiscriminator * 32 + B.arrayBoolOrString * 8 + B.typeTypedArray) = alignedMarker ∧
+    [UInt8.ofNat (B.extComplex * 8 + B.typeExtension)] = (complexHeader ⟨0, 0⟩).take 1 ∧
+    [UInt8.ofNat B.typeGenericArray, 0] = emptyGenericArray ∧
+    (B.typeTypedArray, B.arrayFloat, B.arraySigned, B.arrayUnsigned) = (4, 0, 1, 2) ∧
+    B.sizeThresholds = [[6, 14, 30], [6, 14, 30], [6, 14, 30]] ∧
+    (∀ i ∈ B.impls, (ElemTy.mk i.1 i.2.1).Valid ∧ (ElemTy.mk i.1 i.2.1).width = i.2.2) ∧
+    (∀ cls, cls < 4 → ∀ code, code < 8 →
+      ((ElemTy.mk cls code).Valid ↔ (B.impls.map fun i => (i.1, i.2.1)).contains (cls, code) = true)) := by
   decide
 
 /-! ### a whole call -/
